@@ -25,6 +25,7 @@ import (
 )
 
 const e2eStmt = "SELECT v FROM c13kv WHERE k = ?"
+const e2eBatchStmt = "INSERT INTO c13kv (k, v) VALUES (?, ?)"
 const e2eNodes = 5
 
 type ctxKey struct{}
@@ -51,16 +52,17 @@ type e2eCase struct {
 }
 
 type e2e struct {
-	h     *harness
-	net   *node.Net
-	sess  *gocql.Session
-	mu    sync.Mutex
-	seq   int
-	hosts map[string]*gocql.HostInfo // by connect address
-	cur   *e2eCase
-	ghost *gocql.HostInfo // a host the session has no pool for
-	downs chan int        // HostDown / HostUp notifications (host id)
-	ups   chan int
+	h           *harness
+	net         *node.Net
+	sess        *gocql.Session
+	mu          sync.Mutex
+	seq         int
+	hosts       map[string]*gocql.HostInfo // by connect address
+	cur         *e2eCase
+	ghost       *gocql.HostInfo // a host the session has no pool for
+	defaultIdem bool            // ClusterConfig.DefaultIdempotence of the session
+	downs       chan int        // HostDown / HostUp notifications (host id)
+	ups         chan int
 }
 
 func hostNum(h *gocql.HostInfo) int {
@@ -199,7 +201,8 @@ func (e *e2e) handle(id int, nd *node.Node) node.Handler {
 		cs := e.cur
 		e.mu.Unlock()
 		// requests of an earlier case's stragglers carry that case's key, not this one's
-		if cs == nil || req.Execute == nil || len(req.Execute.Params.Values) != 1 || string(req.Execute.Params.Values[0].Bytes) != cs.key {
+		key, cons := reqKey(req)
+		if cs == nil || key != cs.key {
 			nd.Default(c, req)
 			return
 		}
@@ -212,7 +215,7 @@ func (e *e2e) handle(id int, nd *node.Node) node.Handler {
 		out := rc.nextOutcomeLocked()
 		rc.started++
 		rc.mu.Unlock()
-		rc.logNode(ev{kind: evExec, host: id, cons: int64(req.Execute.Params.Consistency)})
+		rc.logNode(ev{kind: evExec, host: id, cons: int64(cons)})
 		rc.logNode(ev{kind: evDone, host: id, o: out.o, still: true})
 		o := out.o
 		if cs.delays != nil {
@@ -271,6 +274,18 @@ func (e *e2e) handle(id int, nd *node.Node) node.Handler {
 	}
 }
 
+// reqKey: the case key bound to the test statement (EXECUTE) or to the first statement of a BATCH, and
+// the consistency level of the request
+func reqKey(req *node.Request) (string, uint16) {
+	switch {
+	case req.Execute != nil && len(req.Execute.Params.Values) == 1:
+		return string(req.Execute.Params.Values[0].Bytes), req.Execute.Params.Consistency
+	case req.Batch != nil && len(req.Batch.Statements) > 0 && len(req.Batch.Statements[0].Values) > 0:
+		return string(req.Batch.Statements[0].Values[0].Bytes), req.Batch.Consistency
+	}
+	return "", 0
+}
+
 func tagMsg(tag int64) string { return "c13-tag-" + strconv.FormatInt(tag, 10) }
 
 // server error codes without a special case in the executor or the built-in policies
@@ -310,13 +325,14 @@ func (cs *e2eCase) errSpec(err error) *outSpec {
 	return nil
 }
 
-func newE2E(h *harness, timeout time.Duration) (*e2e, error) {
-	e := &e2e{h: h, hosts: map[string]*gocql.HostInfo{}, downs: make(chan int, 64), ups: make(chan int, 64)}
+func newE2E(h *harness, timeout time.Duration, defaultIdem bool) (*e2e, error) {
+	e := &e2e{h: h, defaultIdem: defaultIdem, hosts: map[string]*gocql.HostInfo{}, downs: make(chan int, 64), ups: make(chan int, 64)}
 	e.net = node.NewNet()
 	var contact []string
 	for i := 1; i <= e2eNodes; i++ {
 		nd := e.net.AddNode(fmt.Sprintf("10.0.0.%d:9042", i))
 		nd.AddRule(node.Rule{Match: node.MatchStatement("FROM c13kv", node.OpExecute), Do: e.handle(i, nd)})
+		nd.AddRule(node.Rule{Match: func(r *node.Request) bool { return r.Batch != nil }, Do: e.handle(i, nd)})
 		contact = append(contact, fmt.Sprintf("10.0.0.%d", i))
 	}
 	e.net.SetKeyspace("demo", node.Keyspace{Replication: node.NetworkTopologyStrategy(map[string]int{"dc1": 1}), DurableWrites: true})
@@ -329,6 +345,7 @@ func newE2E(h *harness, timeout time.Duration) (*e2e, error) {
 	cfg.Timeout = timeout
 	cfg.ConnectTimeout = 20 * time.Second
 	cfg.NumConns = 1
+	cfg.DefaultIdempotence = defaultIdem
 	cfg.ReconnectionPolicy = &gocql.ConstantReconnectionPolicy{MaxRetries: 1, Interval: 10 * time.Millisecond}
 	cfg.Keyspace = "demo"
 	cfg.Consistency = gocql.One
@@ -370,7 +387,7 @@ func (e *e2e) close() {
 func (g *gen) e2eScript() *script {
 	r := g.r
 	sc := g.randomScript()
-	sc.batch, sc.direct = false, false
+	sc.batch, sc.direct = r.Chance(35), false
 	n := r.Intn(7)
 	sc.hosts = make([]gocql.VerifC13Host, n)
 	for i := range sc.hosts {
@@ -424,6 +441,10 @@ func (e *e2e) run(sc *script, kind string) {
 
 // runCase returns false when the case had to be discarded (a request timed out that no node left unanswered)
 func (e *e2e) runCase(sc *script, kind string) bool {
+	e.h.realise(sc, !sc.batch, true, e.defaultIdem)
+	if sc.src.batch && len(sc.src.entries) == 0 {
+		sc.src.entries = []gocql.VerifC13Entry{{Set: true, Idempotent: true}} // an empty BATCH carries no case key
+	}
 	rc := newRunCtx(sc, 0)
 	ctx, cancel := context.WithCancel(context.WithValue(context.Background(), ctxKey{}, 1))
 	defer cancel()
@@ -448,31 +469,77 @@ func (e *e2e) runCase(sc *script, kind string) bool {
 	any := e.hosts["10.0.0.1"]
 	e.mu.Unlock()
 
-	q := e.sess.Query(e2eStmt, cs.key).WithContext(ctx).Idempotent(sc.idem).Consistency(gocql.Consistency(sc.cons0))
-	q.RetryPolicy(rc.retryPolicy())
-	if sc.spk != 0 {
-		q.SetSpeculativeExecutionPolicy(&specPolicy{k: sc.spk, delay: 50 * time.Microsecond})
-	}
-	if sc.a0 != 0 {
-		q.AddAttempts(sc.a0, any)
-	}
 	caller := gid()
 	var res gocql.VerifC13Result
 	var pan interface{}
-	func() {
-		defer func() { pan = recover() }()
-		it := q.Iter()
-		res.Host = -1
-		if hh := it.Host(); hh != nil {
-			a := hh.ConnectAddress().To4()
-			if a != nil && a[0] == 10 && a[1] == 0 && a[2] == 0 {
-				res.Host = int(a[3])
+	if sc.src.batch {
+		// a multi-entry batch through Session.ExecuteBatch
+		var b *gocql.Batch
+		if sc.src.sessionBatch {
+			b = e.sess.NewBatch(gocql.LoggedBatch)
+		} else {
+			b = gocql.NewBatch(gocql.LoggedBatch)
+		}
+		for i, en := range sc.src.entries {
+			key, n := cs.key, i
+			if en.Bind {
+				b.Bind(e2eBatchStmt, func(*gocql.QueryInfo) ([]interface{}, error) { return []interface{}{key, n}, nil })
+			} else {
+				b.Query(e2eBatchStmt, key, n)
+			}
+			if en.Set {
+				b.Entries[i].Idempotent = en.Idempotent
 			}
 		}
-		res.Err = it.Close()
-		res.Attempts = q.Attempts()
-		res.Consistency = q.GetConsistency()
-	}()
+		b = b.WithContext(ctx)
+		b.SetConsistency(gocql.Consistency(sc.cons0))
+		b.RetryPolicy(rc.retryPolicy())
+		if sc.spk != 0 {
+			b.SpeculativeExecutionPolicy(&specPolicy{k: sc.spk, delay: 50 * time.Microsecond})
+		}
+		if sc.a0 != 0 {
+			b.AddAttempts(sc.a0, any)
+		}
+		func() {
+			defer func() { pan = recover() }()
+			res.Host = -1
+			res.Err = e.sess.ExecuteBatch(b)
+			res.Attempts = b.Attempts()
+			res.Consistency = b.GetConsistency()
+		}()
+		// ExecuteBatch hands back only the error: which host's Iter it was (or that it is the last error after
+		// the hosts ran out) is read off the log; the error value itself is the driver's
+		rc.mu.Lock()
+		if res.Host < 0 && len(rc.traces) > 0 {
+			if exp := expectedResult(sc.pol.kind != 0, rc.traces[0]); exp != nil && exp.kind == "iter" {
+				res.Host = exp.host
+			}
+		}
+		rc.mu.Unlock()
+	} else {
+		q := e.sess.Query(e2eStmt, cs.key).WithContext(ctx).Consistency(gocql.Consistency(sc.cons0))
+		if sc.src.override != nil {
+			q.Idempotent(*sc.src.override)
+		}
+		q.RetryPolicy(rc.retryPolicy())
+		if sc.spk != 0 {
+			q.SetSpeculativeExecutionPolicy(&specPolicy{k: sc.spk, delay: 50 * time.Microsecond})
+		}
+		if sc.a0 != 0 {
+			q.AddAttempts(sc.a0, any)
+		}
+		func() {
+			defer func() { pan = recover() }()
+			it := q.Iter()
+			res.Host = -1
+			if hh := it.Host(); hh != nil {
+				res.Host = hostNum(hh)
+			}
+			res.Err = it.Close()
+			res.Attempts = q.Attempts()
+			res.Consistency = q.GetConsistency()
+		}()
+	}
 	e.mu.Lock()
 	e.cur = nil
 	held := cs.held
@@ -495,6 +562,7 @@ func (e *e2e) runCase(sc *script, kind string) bool {
 // session; the nodes answer after scripted delays.  Monitors only.
 func (e *e2e) runFree(sc *script) {
 	o := e.h.o
+	e.h.realise(sc, true, true, e.defaultIdem)
 	rc := newRunCtx(sc, 1)
 	ctx, cancel := context.WithCancel(context.WithValue(context.Background(), ctxKey{}, 1))
 	defer cancel()
@@ -517,7 +585,10 @@ func (e *e2e) runFree(sc *script) {
 	e.mu.Lock()
 	e.cur = cs
 	e.mu.Unlock()
-	q := e.sess.Query(e2eStmt, cs.key).WithContext(ctx).Idempotent(true).Consistency(gocql.Consistency(sc.cons0))
+	q := e.sess.Query(e2eStmt, cs.key).WithContext(ctx).Consistency(gocql.Consistency(sc.cons0))
+	if sc.src.override != nil {
+		q.Idempotent(*sc.src.override)
+	}
 	q.RetryPolicy(rc.retryPolicy())
 	q.SetSpeculativeExecutionPolicy(&gocql.SimpleSpeculativeExecution{NumAttempts: sc.spk, TimeoutDelay: delay})
 	if sc.a0 != 0 {
@@ -604,7 +675,8 @@ func (e *e2e) handleControlled(cs *e2eCase, id int, nd *node.Node, c *node.Serve
 		return
 	}
 	t := cs.hostThread[id]
-	rc.traces[t] = append(rc.traces[t], ev{kind: evExec, host: id, cons: int64(req.Execute.Params.Consistency)})
+	_, cons := reqKey(req)
+	rc.traces[t] = append(rc.traces[t], ev{kind: evExec, host: id, cons: int64(cons)})
 	rc.started++
 	cs.inflight[t] = true
 	ch := make(chan release, 1)
@@ -669,6 +741,7 @@ func (g *gen) controlledE2EScript() *script {
 // runControlled: a speculative execution through the real session on a schedule the harness controls
 // by holding the nodes' answers; emitted as a CSpec case like the shim-driven ones
 func (e *e2e) runControlled(sc *script, sched []int, cancelAt int, kind string) {
+	e.h.realise(sc, true, true, e.defaultIdem)
 	launch := func(ctx context.Context, rc *runCtx, sp gocql.SpeculativeExecutionPolicy) gocql.VerifC13Result {
 		e.mu.Lock()
 		e.seq++
@@ -688,7 +761,10 @@ func (e *e2e) runControlled(sc *script, sched []int, cancelAt int, kind string) 
 		e.cur = cs
 		any := e.hosts["10.0.0.1"]
 		e.mu.Unlock()
-		q := e.sess.Query(e2eStmt, cs.key).WithContext(ctx).Idempotent(true).Consistency(gocql.Consistency(sc.cons0))
+		q := e.sess.Query(e2eStmt, cs.key).WithContext(ctx).Consistency(gocql.Consistency(sc.cons0))
+		if sc.src.override != nil {
+			q.Idempotent(*sc.src.override)
+		}
 		q.RetryPolicy(rc.retryPolicy())
 		q.SetSpeculativeExecutionPolicy(sp)
 		if sc.a0 != 0 {
